@@ -381,7 +381,7 @@ def expand_item(src, kind, name, sections, notes):
     if m:
         text = 'pub ' + text[m.end():]
         notes.append({'id': 'N-1', 'what': 'pub(crate) -> pub on %s %s' % (kind, name), 'file': src.rel, 'line': base_line})
-    elif not text.startswith('pub') and kind in ('struct', 'enum'):
+    elif not text.startswith('pub') and kind in ('struct', 'enum', 'const', 'type'):
         text = 'pub ' + text
         notes.append({'id': 'N-1', 'what': 'private -> pub on %s %s' % (kind, name), 'file': src.rel, 'line': base_line})
     for s in sections:
